@@ -1575,6 +1575,15 @@ class Interp:
 
     e_GeneratorExp = e_ListComp
 
+    def e_SetComp(self, node, env):
+        out = []
+        def add(e):
+            v = self.eval(node.elt, e)
+            if not any(v is x or self.py_eq(v, x) is True for x in out):
+                out.append(v)
+        self._comp(node.generators, env, add)
+        return out          # sets are modelled as duplicate-free lists (iteration order = insertion order)
+
     def e_DictComp(self, node, env):
         out = {}
         self._comp(node.generators, env,
@@ -1986,6 +1995,9 @@ class Interp:
 
         def b_sorted(I, a, k, n):
             items = I.iterate(a[0], n)
+            if items and all((isinstance(x, Num) and x.is_const()) or (_is_sym(x) and x.is_number) for x in items):
+                rev = bool(k.get("reverse", False))
+                return sorted(items, key=lambda x: float(x.value()) if isinstance(x, Num) else float(x), reverse=rev)
             try:
                 return sorted(items)
             except TypeError:
